@@ -677,6 +677,7 @@ func (e *Engine) execInstr(s *State, in ssa.Instruction) {
 			e.safe(s, x, "nilelem", Ne(val[0], Zero))
 		}
 		e.detStore(s, x, pl, val)
+		e.histStore(s, x, pl, t, val)
 		e.store(s, pl, t, val)
 	case *ssa.BinOp:
 		f.regs[x] = e.binop(s, x)
